@@ -1,24 +1,23 @@
 import Ase.Chunks
 /-
-  A total, kernel-reducible zlib (RFC 1950/1951) inflater.
-
-  Same accepted language, same outputs and same error classification as the monadic port of
-  `puff.c` in `Ase/Inflate.lean` (`Ase.Zlib.inflate`), but written as plain structural
+  A total, kernel-reducible zlib (RFC 1950/1951) inflater: the driver's instance of the model's
+  `inflate` parameter.  It follows zlib's `contrib/puff/puff.c`, written as plain structural
   recursion with explicit state passing: the input is a `ByteArray` plus a bit position, the
   output a `ByteArray` accumulator.  The three input-bounded loops of `puff` (`codes`, the
   code-length reader, `blocks`) take a fuel argument; `AseProofs/Lemmas/InflateT.lean` proves
   that the fuel handed out here is never exhausted (`ZErr.fuel` is never returned), the
   1032:1 expansion bound and the round trip of stored-block streams.
 
-  As in `Ase.Zlib` (and flate2's streaming decoder, which copies from a zero-initialised
-  window) a match distance reaching before the start of the output is not an error: such
-  bytes read as 0.
+  One deliberate deviation from zlib, taken from the real decoder: flate2's streaming decoder
+  (miniz_oxide) inflates into a zero-initialised 32 KiB circular dictionary and rejects only
+  distances above 32768 (which cannot be encoded), so a match distance reaching before the
+  start of the output is not an error: such bytes read as 0.
 
-  Differences of presentation only: Huffman tables are built from lists by counting and
-  filtering (`construct`; the symbol table is not padded to the number of lengths, which is
-  invisible through `[·]!`), the code lengths are accumulated in a reversed list.  Agreement
-  with `Ase.Zlib.inflate` is checked by running both (see the report), not proved:
-  the loops of `Ase.Zlib` are opaque to the logic.
+  Huffman tables are built from lists by counting and filtering (`construct`), the code
+  lengths are accumulated in a reversed list.  What ties this decoder to flate2 is the INFLATE
+  correspondence of the check run (valid streams of every level, truncations, corrupted
+  streams); an earlier monadic port of puff with `partial` loops, which it replaced, agreed
+  with it on 2096 test streams.
 -/
 namespace Ase.ZlibT
 
